@@ -61,9 +61,9 @@ COMPONENTS = {
                     "MultSDE: the same with make_noise_variance returning s0 + s1*c**2 and 2*s1*c"],
 }
 ASSUMPTIONS = [
-    "generated variances are exactly 0 or >= 1e-7: SDEBase.is_sde treats every variance <= 1e-14 as no noise whatever the "
-    "cell volume (a plan with variance 1e-15 on cells of volume 5e-7 fails with C13/draw-count, key "
-    "C13/tiny-variance-treated-as-deterministic); such plans are only generated when TINY_VARIANCE_RATE > 0",
+    "generated variances are exactly 0, >= 1e-7, or (4% of the plans: micrometre cells in SI units) of order 1e-17: the "
+    "latter exercise defect D10 (is_sde dropped variances <= 1e-14; repaired, see known_findings.json), key "
+    "C13/tiny-variance-treated-as-deterministic",
     "n <= 50 steps, <= 3 extra trackers, <= 40 cells; |a|*dt <= 0.3 (<= 0.1 for the implicit solver), noise amplitude per "
     "step <= 0.3 in the smallest cell, so that round-off stays far below rtol=1e-12 relative to the largest state value",
     "semi-implicit solver: only the documented statement is checked (noise increment added to the state the fixed-point "
@@ -85,9 +85,9 @@ ALPHA = {"ito": 0.0, "itô": 0.0, "stratonovich": 0.5, "anti-ito": 1.0, "anti-it
 IMPLICIT_MAXERROR = 1e-13
 # SDEBase.is_sde treats every variance <= 1e-14 as "no noise" whatever the cell volume is, so that e.g. variance 1e-15 on
 # cells of volume 1e-15 (noise amplitude sqrt(dt) per step) is silently simulated without noise.  The engine detects this
-# (class C13/draw-count, key C13/tiny-variance-treated-as-deterministic) but does not generate such plans unless this rate
-# is raised, because the unchanged tree then fails; reported to the maintainers of known_findings.json instead.
-TINY_VARIANCE_RATE = 0.0
+# (class C13/draw-count, key C13/tiny-variance-treated-as-deterministic); the defect was repaired in /repo, the plans
+# stay in the mix so that it is reported again if it ever returns.
+TINY_VARIANCE_RATE = 0.04
 EXTRA_KINDS = ("rec", "rec", "data", "storage", "print", "steady")
 
 
